@@ -345,8 +345,9 @@ def run(ctx: Context) -> None:
         ctx.check('R10.5', ok, "max-node dimension: the other dimension of face_node_connectivity", mn, mn.node)
         ed = ctx.func(f"{TOPO}.edge_dimension")
         txt = ' '.join(norm_text(s) for s in ed.body)
+        keys_ed = {n.value for n in ast.walk(ed.node) if isinstance(n, ast.Constant) and isinstance(n.value, str) and n.value.endswith('_connectivity')}
         ok = ("if not self.has_edge_dimension" in txt and "return self.mesh_attributes['edge_dimension']" in txt
-              and "topo_keys = ['edge_node_connectivity', 'edge_face_connectivity']" in txt and 'variable.dims[0] for variable in variables' in txt)
+              and keys_ed == {'edge_node_connectivity', 'edge_face_connectivity'} and 'variable.dims[0] for variable in variables' in txt)
         ctx.check('R10.5', ok, "edge dimension: the edge_dimension attribute, else the first dimension of a supplied edge table", ed, ed.node)
         # the declared attribute wins over the inferred dimension (a transposed table would otherwise name the wrong one)
         from ..pattern import Matcher
@@ -369,28 +370,52 @@ def run(ctx: Context) -> None:
                   construct='two_dimension: standard name first, then any size-2 dimension, then the standard name')
         # an unrelated dimension of size two (exactly two time steps) must not be taken for the pair dimension
         # while an edge table is there to say which one it is
-        from .common import positive_conditions as _pc
+        from .common import facts as _facts
         twflow = ctx.flow(tw)
         pref = None
+        why = []
         for r in tw.returns():
-            conds = [(t, pol) for t, pol in _pc(tw, r)]
-            not_edge = any(isinstance(t, ast.Compare) and isinstance(t.ops[0], ast.Eq) and pol is False and 'self.edge_dimension' in (norm_text(t.left), norm_text(t.comparators[0]))
-                           and norm_text(r.value) in (norm_text(t.left), norm_text(t.comparators[0])) for t, pol in conds)
-            size_two = any(isinstance(t, ast.Compare) and isinstance(t.ops[0], ast.Eq) and pol is True and const_value(t.comparators[0], None) == 2
-                           and norm_text(t.left) == f"self.dataset.sizes[{norm_text(r.value)}]" for t, pol in conds)
-            from_edge_table = twflow.reaches(r.value, lambda n: isinstance(n, ast.Constant) and n.value in ('edge_node_connectivity', 'edge_face_connectivity'))
-            has_edges = any(norm_text(t) == 'self.has_edge_dimension' and pol is True for t, pol in conds)
-            declared_only = any("'edge_dimension' in" in norm_text(t) for t, pol in conds)
-            if not_edge and size_two and from_edge_table and has_edges and not declared_only:
+            if not isinstance(r.value, ast.Name):
+                continue
+            fs = _facts(ctx, tw, r, expand=False)
+            rv_ = r.value.id
+            not_edge = (f"{rv_} == self.edge_dimension", False) in fs or (f"self.edge_dimension == {rv_}", False) in fs
+            size_two = (f"self.dataset.sizes[{rv_}] == 2", True) in fs
+            has_edges = ('self.has_edge_dimension', True) in fs
+            declared_only = any("'edge_dimension' in" in t for t, pol in fs)
+            # the returned name runs over ALL dimensions of the table (not one picked position) ...
+            d_ = twflow.defs_of(r.value)
+            all_dims = len(d_) == 1 and d_[0].kind == 'iter' and isinstance(d_[0].value, ast.Attribute) and d_[0].value.attr == 'dims'
+            table = d_[0].value.value if all_dims else None
+            # ... of a variable named by the mesh attribute of an edge table key, for BOTH edge tables, and present in the dataset
+            tname = table.slice if isinstance(table, ast.Subscript) and norm_text(table.value) in ('self.dataset.variables', 'self.dataset') else None
+            keys_ = set()
+            present = False
+            if isinstance(tname, ast.Name):
+                present = (f"{tname.id} in self.dataset.variables", True) in fs
+                for dn in twflow.defs_of(tname):
+                    v_ = dn.value
+                    if isinstance(v_, ast.Call) and isinstance(v_.func, ast.Attribute) and v_.func.attr == 'get' and norm_text(v_.func.value) == 'self.mesh_attributes' and v_.args \
+                            and isinstance(v_.args[0], ast.Name):
+                        for dk in twflow.defs_of(v_.args[0]):
+                            if dk.kind == 'iter':
+                                it_ = twflow.resolve(dk.value)
+                                if isinstance(it_, ast.IfExp):
+                                    it_ = it_.body if isinstance(it_.body, (ast.Tuple, ast.List)) and it_.body.elts else it_.orelse
+                                if isinstance(it_, (ast.Tuple, ast.List)):
+                                    keys_ |= {const_value(e, None) for e in it_.elts}
+            both = keys_ == {'edge_node_connectivity', 'edge_face_connectivity'}
+            why.append((rv_, dict(not_edge=not_edge, size_two=size_two, has_edges=has_edges, all_dims=all_dims, both_tables=both, present=present)))
+            if not_edge and size_two and has_edges and not declared_only and all_dims and both and present:
                 pref = r
         ok = pref is not None and len(scan) == 1 and std is not None and pref.lineno < std.lineno < scan[0].lineno
-        ctx.check('R10.5', ok, "the pair dimension is first of all the size-2 dimension of a supplied edge table other than the edge dimension (something unrelated may be using the name 'Two'); only then the name 'Two', then any dimension of size 2", tw,
-                  pref or tw.node, construct='two_dimension: the non-edge dimension of an edge table, then Two, then any size-2 dimension')
+        ctx.check('R10.5', ok, "the pair dimension is first of all the size-2 dimension of a supplied edge table other than the edge dimension (something unrelated may be using the name 'Two'): "
+                  "any dimension of either edge table (edge_node or edge_face) that the dataset holds, whichever position it is stored in; only then the name 'Two', then any dimension of size 2", tw,
+                  pref or tw.node, construct=f"returns of a loop variable: {why}"[:500])
         he = ctx.func(f"{TOPO}.has_edge_dimension")
         txt = ' '.join(norm_text(s) for s in he.body)
-        ok = ("if 'edge_dimension' in self.mesh_attributes: return True" in txt.replace('\n', ' ')
-              and "topo_keys = ['edge_node_connectivity', 'edge_face_connectivity']" in txt
-              and 'key in self.mesh_attributes and self.mesh_attributes[key] in self.dataset.variables' in txt)
+        ok = "if 'edge_dimension' in self.mesh_attributes: return True" in txt.replace('\n', ' ') and all(
+            f"'{k}' in self.mesh_attributes and self.mesh_attributes['{k}'] in self.dataset.variables" in txt for k in ('edge_node_connectivity', 'edge_face_connectivity'))
         ctx.check('R10.5', ok, "an edge dimension exists when declared, or implied by a supplied edge table present in the dataset", he, he.node)
         for name, dim in (('node_count', 'node_dimension'), ('face_count', 'face_dimension'), ('max_node_count', 'max_node_dimension')):
             fi = ctx.func(f"{TOPO}.{name}")
